@@ -28,7 +28,7 @@ if not cps or not tests:
     meta["error"] = "could not parse DEMO.md"
     json.dump(meta, open(os.path.join(dst, "meta.json"), "w"), indent=1)
     sys.exit(1)
-cp_cmds = [c.replace("MUTATION/%s/" % k, src + "/") for c in cps]
+cp_cmds = [re.sub(r"(?:\./)?MUTATION/\d+/", src + "/", c) for c in cps]
 with_run = [t for t in tests if "-run" in t]
 test_cmd = (with_run or tests)[0].strip().rstrip("`").strip()
 if "-timeout" not in test_cmd:
@@ -56,7 +56,7 @@ try:
     for c in cp_cmds:
         sh(c, cwd=wt)
     rc, out = sh(test_cmd, cwd=wt)
-    meta["demo_passes_without_patch"] = rc == 0
+    meta["demo_passes_without_patch"] = rc == 0 and "no tests to run" not in out and "no test files" not in out
     meta["demo_without_tail"] = out[-600:]
     # with the patch
     rc, out = sh("git apply %s/patch.diff" % dst, cwd=wt)
